@@ -61,9 +61,14 @@ def run(prop: str, tier: str, seed: int) -> int:
                 groups.setdefault(key, []).append([v - 1 for v in st["x"]])
             for key, tours in groups.items():
                 M = [list(r) for r in key]
-                inst = ts.make_instance(M)
-                cases.append(record(f"gen-{len(cases)}", M, inst, tours))
                 n_gen += len(tours)
+                try:
+                    inst = ts.make_instance(M)
+                except ValueError as ex:
+                    rep.violations.append(core.Verdict(f"gen-{len(cases)}-{n_gen}", "constructor-rejects-valid-matrix",
+                                                       {"M": M, "error": str(ex)[:160]}))
+                    continue
+                cases.append(record(f"gen-{len(cases)}", M, inst, tours))
         finally:
             import shutil
             shutil.rmtree(dump.parent, ignore_errors=True)
@@ -99,7 +104,9 @@ def run(prop: str, tier: str, seed: int) -> int:
             + ([np.uint8] if hi < 2 ** 8 else [])
         try:
             inst = ts.make_instance(M, dtype=rng.choice(cand))
-        except ValueError:
+        except ValueError as ex:
+            rep.violations.append(core.Verdict(f"rand-{k}", "constructor-rejects-valid-matrix",
+                                               {"M": M, "error": str(ex)[:160]}))
             continue
         if n <= 5 and rng.random() < 0.3:
             tours = [list(p) for p in itertools.permutations(range(n))]
